@@ -39,6 +39,13 @@ def run(tier):
         for implicit, adaptive in ((False, True), (True, False), (False, False)):
             R.under_contract(intcall.check_rk_call_faults(reg, src, PID, implicit, adaptive))
             R.under_contract(intcall.check_rk_call_unbounded(reg, src, PID, implicit, adaptive, faulting=True))      # ... from any retry: loop cut by an invariant
+        # resuming after a fault relies on the cached end slope naming the point it was computed at: step() records (final_time, final_state)
+        # together with final_rhs on *every* attempt, so a fault in a later attempt cannot leave a slope under the label of another point
+        from . import C06, e2common
+        C06.check_step_end_point(reg, src, e2common.load_tables(R))
+        for o in reg.obligations:
+            if o.name.startswith("C06/"):
+                o.name = o.name.replace("C06/", PID + "/", 1)
         # reset() after a failure -- from any failed state, in particular one in which the fault hit the very first step (no step
         # recorded, status = the failure object, dt already clamped, evaluations counted): the pristine system again (C13's obligations)
         from . import C13
